@@ -1,5 +1,8 @@
 /* C43 / O1: eviction safety of parsec_device_data_reserve_space (device_gpu.c).
  *
+ * WORK IN PROGRESS - NOT REFERENCED BY ANY QUERY OF spec.py (no verdict within reach, see
+ * NOT_APPLICABLE.md in this directory for the measured obstacles).  Kept for whoever continues.
+ *
  * Unit: the real parsec/mca/device/device_gpu.c (#included: the static inline
  * parsec_device_data_reserve_space is called directly), the real parsec/data.c
  * (parsec_data_copy_attach/detach, the parsec_data_t / parsec_data_copy_t classes with their
